@@ -86,6 +86,58 @@ pub open spec fn simple_primary(r: (CompiledProg, AstNode<Primary>), t: TokenWit
 }
 
 
+
+// ---- map literals -----------------------------------------------------------------------------------------------------------------
+pub struct OL { pub pairs: Seq<(P<Expr>, P<Expr>)>, pub end: nat, pub lbl: u32 }      // (key, value) in source order
+/// Expr `:` Expr (`,` Expr `:` Expr)* [`,`]  up to (not including) the closing brace; an empty map is allowed
+pub closed spec fn sp_oi_loop(toks: Seq<TokenWithLoc>, acc: OL) -> Option<OL>
+    decreases toks.len() - acc.end
+{
+    if acc.end < toks.len() && toks[acc.end as int].token is RBrace { Some(acc) } else {
+        match sp_expr(toks, acc.end, acc.lbl) {
+            Some(k) => if k.end > acc.end && k.end < toks.len() && toks[k.end as int].token is Colon {
+                    match sp_expr(toks, k.end + 1, k.lbl) {
+                        Some(v) => if v.end > k.end && v.end <= toks.len() {
+                                if v.end < toks.len() && toks[v.end as int].token is Comma { sp_oi_loop(toks, OL { pairs: acc.pairs.push((k, v)), end: v.end + 1, lbl: v.lbl }) }
+                                else { Some(OL { pairs: acc.pairs.push((k, v)), end: v.end, lbl: v.lbl }) }
+                            } else { None },
+                        None => None,
+                    }
+                } else { None },
+            None => None,
+        }
+    }
+}
+pub closed spec fn sp_obj_inits(toks: Seq<TokenWithLoc>, pos: nat, lbl: u32) -> Option<OL> { sp_oi_loop(toks, OL { pairs: Seq::empty(), end: pos, lbl: lbl }) }
+/// what MkDict pops: for every entry the VALUE is pushed first, then the KEY
+pub open spec fn flat_items(pairs: Seq<(P<Expr>, P<Expr>)>) -> Seq<P<Expr>> { Seq::new(2 * pairs.len(), |i: int| if i % 2 == 0 { pairs[i / 2].1 } else { pairs[i / 2].0 }) }
+pub open spec fn pair_asts(pairs: Seq<(P<Expr>, P<Expr>)>) -> Seq<AstNode<ObjInit>> {
+    pairs.map_values(|kv: (P<Expr>, P<Expr>)| mk_ast(ObjInit { key: kv.0.ast, value: kv.1.ast }, hull(a_loc(kv.0.ast), a_loc(kv.1.ast))))
+}
+pub mod axo { use super::*; use vstd::prelude::*;
+pub uninterp spec fn vec_of_inits(s: Seq<AstNode<ObjInit>>) -> Vec<AstNode<ObjInit>>;
+/// ASSUMED: a Vec is determined by its elements
+pub broadcast axiom fn axiom_vec_of_inits(v: Vec<AstNode<ObjInit>>) ensures #[trigger] vec_of_inits(v@) == v;
+}
+pub use axo::vec_of_inits;
+// S1: std::vec::IntoIter<AstNode<Expr>> driven by hand (`children_ast.into_iter()` then `.next()`)
+#[verifier::external_body] pub struct AstIter { _p: u8 }
+impl AstIter {
+    pub uninterp spec fn rest(&self) -> Seq<AstNode<Expr>>;
+    /// ASSUMED std: yields the elements in order, then None
+    #[verifier::external_body] pub fn next(&mut self) -> (r: Option<AstNode<Expr>>)
+        ensures
+            old(self).rest().len() > 0 ==> r == Some(old(self).rest()[0]) && final(self).rest() == old(self).rest().skip(1),
+            old(self).rest().len() == 0 ==> r is None && final(self).rest() == old(self).rest(),
+    { unimplemented!() }
+}
+#[verifier::external_body] pub fn s_ast_iter(v: Vec<AstNode<Expr>>) -> (r: AstIter) ensures r.rest() == v@ { unimplemented!() }
+/// CLOSURE BODY DROPPED: the compile-time construction of a map from its constant keys and values (HashMap insertion in order over
+/// `step_by(2)`: not expressible for Verus); NOT VERIFIED
+#[verifier::external_body] pub fn s_map_resolver(vals: Vec<CelValue>) -> CelValue { unimplemented!() }
+/// `next_token != Some(Token::Colon)` on Option<Token>
+#[verifier::external_body] pub fn opt_tok_is_colon(a: &Option<Token>) -> (r: bool) ensures r == (*a is Some && a->Some_0 is Colon) { unimplemented!() }
+#[verifier::external_body] pub fn opt_ref_tok_is_rbrace(a: Option<&Token>) -> (r: bool) ensures r == (a is Some && *a->Some_0 is RBrace) { unimplemented!() }
 // ---- list literals ---------------------------------------------------------------------------------------------------------------
 pub open spec fn lift(s: Seq<ByteCode>) -> Seq<PreResolvedCodePoint> { s.map_values(|b: ByteCode| PreResolvedCodePoint::Bytecode(b)) }
 pub open spec fn items_details(items: Seq<P<Expr>>, n: int) -> Set<Seq<char>> decreases n { if n <= 0 { Set::empty() } else { items_details(items, n - 1) + items[n - 1].details } }
@@ -222,15 +274,61 @@ def primary_contract(stub=False):
                     }})
             }})
         }})""", ('C06', 'C09', 'C17', 'C18', 'C02', 'C10')))
+    ens.append(('map_literal_holds_its_entries_in_order', f"""r is Ok && {T0}.token is LBrace ==> ({{
+            let toks = old(self).tokenizer.toks();
+            let l = sp_obj_inits(toks, old(self).tokenizer.pos() + 1, old(self).next_label);
+            &&& l is Some && l->Some_0.end < toks.len() && toks[l->Some_0.end as int].token is RBrace
+            &&& final(self).tokenizer.pos() == l->Some_0.end + 1 && final(self).next_label == l->Some_0.lbl
+            &&& ({{ let pairs = l->Some_0.pairs; let items = flat_items(pairs); let n = items.len() as int; let span = hull({T0}.loc, toks[l->Some_0.end as int].loc);
+                &&& r->Ok_0.1 == mk_ast(Primary::ObjectInit(mk_ast(ObjInits {{ inits: vec_of_inits(pair_asts(pairs)) }}, span)), span)
+                &&& r->Ok_0.0.details@ == items_details(items, n)
+                &&& (if items_all_const(items, n) {{ node_view(r->Ok_0.0.inner) is Const }} else {{
+                        node_view(r->Ok_0.0.inner) is Code && node_view(r->Ok_0.0.inner)->Code_0 =~= items_code(items, n) + lift(seq![ByteCode::MkDict(((2 * pairs.len()) as u32 / 2) as u32)])
+                    }})
+            }})
+        }})""", ('C06', 'C09', 'C17', 'C18', 'C02', 'C10')))
     if stub:
         return A(stub=True, ret='r', requires=[CURSOR], ensures=ens)
     drop = lambda what: ('{ unverified_primary_arm() }', f'{what}: iterator unzip / step_by / a nested compiler, outside what Verus accepts; NOT VERIFIED')
     return A(ret='r', attrs=['#[verifier::exec_allows_no_decreases_clause]'], requires=[CURSOR], ensures=ens,
-             arm_replace={'Some(TokenWithLoc { token: Token::LBrace, loc, })': drop('map literal'),
-                          'Some(TokenWithLoc { token: Token::FStringLit(segments), loc, })': drop('f-string lowering')},
+             arm_replace={                          'Some(TokenWithLoc { token: Token::FStringLit(segments), loc, })': drop('f-string lowering')},
              closures={0: dict(types=['Vec<CelValue>'], ret='res: CelValue', ensures=[('the_list_of_the_values', 'res == list_val(c@)', ('C06', 'C09'))])},
-             rewrites=[('expr_node_list.into_iter().unzip()', 's_unzip(expr_node_list)', 'R2m: Vec::into_iter().unzip() -> trampoline (assumed: the two component vectors, in order)')],
-             after={('stmt', 'let expr_node_list =', 0): 'let ghost l0 = sp_expr_list(self.tokenizer.toks(), old(self).tokenizer.pos() + 1, old(self).next_label, Token::RBracket)->Some_0;',
+             closure_drop={1: ('s_map_resolver', 'the map-literal resolver closure (HashMap insertion over step_by(2)) is outside what Verus accepts')},
+             loops={0: dict(header='while let Some(val_ast) = children_ast_iter.next()', invariant=[
+                 ('entries_paired_key_then_value', '''init_asts@.len() <= l1.pairs.len() && init_asts@ =~= pair_asts(l1.pairs).take(init_asts@.len() as int)
+                    && children_ast_iter.rest() =~= items_asts(flat_items(l1.pairs)).skip(2 * init_asts@.len() as int)''', ('C02', 'C18'))],
+                 ensures=[('all_entries_consumed', 'children_ast_iter.rest().len() == 0', ('C02',))],
+                 pre='''let ghost j0 = init_asts@.len() as int; let ghost fa = items_asts(flat_items(l1.pairs));
+proof {
+    assert(fa.len() == 2 * l1.pairs.len());
+    assert(fa.skip(2 * j0).len() > 0 ==> j0 < l1.pairs.len());
+    if j0 < l1.pairs.len() {
+        assert(fa.skip(2 * j0)[0] == fa[2 * j0] && fa[2 * j0] == l1.pairs[j0].1.ast);
+        assert(fa.skip(2 * j0).skip(1)[0] == fa[2 * j0 + 1] && fa[2 * j0 + 1] == l1.pairs[j0].0.ast);
+        assert(fa.skip(2 * j0).skip(1).skip(1) =~= fa.skip(2 * (j0 + 1)));
+    }
+}''',
+                 post='''proof {
+    assert(pair_asts(l1.pairs).take(j0 + 1) =~= pair_asts(l1.pairs).take(j0).push(pair_asts(l1.pairs)[j0]));
+}''')},
+             rewrites=[('Some(&TokenWithLoc { token: Token::RBrace, loc: rbrace_loc, })', 'Some(TokenWithLoc { token: Token::RBrace, loc: rbrace_loc, })', 'R5: `&` pattern -> default binding mode (the span is copied out before the tokenizer is used again)'),
+                       ('self.tokenizer.next()?; loc.surrounding(rbrace_loc)', 'let rbrace_loc: SourceRange = *rbrace_loc; self.tokenizer.next()?; loc.surrounding(rbrace_loc)', 'R5: the copy the `&` pattern made'),
+                       ('obj_init.into_iter().unzip()', 's_unzip(obj_init)', 'R2m: Vec::into_iter().unzip() -> trampoline'),
+                       ('children_ast.into_iter()', 's_ast_iter(children_ast)', 'R2m: a vec::IntoIter driven by hand -> stand-in iterator (assumed: yields the elements in order)'),
+                       ('expr_node_list.into_iter().unzip()', 's_unzip(expr_node_list)', 'R2m: Vec::into_iter().unzip() -> trampoline (assumed: the two component vectors, in order)')],
+             before={'let new_ast = AstNode::new(': '''proof {
+    let fa = items_asts(flat_items(l1.pairs));
+    assert(fa.skip(2 * init_asts@.len() as int).len() == 0);
+    assert(init_asts@.len() == l1.pairs.len());
+    assert(init_asts@ =~= pair_asts(l1.pairs));
+}'''},
+             after={('stmt', 'let obj_init =', 0): 'let ghost l1 = sp_obj_inits(self.tokenizer.toks(), old(self).tokenizer.pos() + 1, old(self).next_label)->Some_0;',
+                    ('stmt', 'let (compiled_children, children_ast): (Vec<_>, Vec<_>) =', 0): '''proof {
+    lemma_children_items(compiled_children@, flat_items(l1.pairs), 2 * l1.pairs.len() as int);
+    assert(children_ast@ =~= items_asts(flat_items(l1.pairs)));
+}''',
+
+                    ('stmt', 'let expr_node_list =', 0): 'let ghost l0 = sp_expr_list(self.tokenizer.toks(), old(self).tokenizer.pos() + 1, old(self).next_label, Token::RBracket)->Some_0;',
                     ('stmt', 'let (expr_list, expr_list_ast): (Vec<_>, Vec<_>) =', 0): '''proof {
     lemma_children_items(expr_list@, l0.items, l0.items.len() as int);
     assert(expr_list_ast@ =~= items_asts(l0.items));
@@ -258,6 +356,43 @@ def expr_list_contract():
         props=('C02', 'C17', 'C18', 'C01'))
 
 
+def obj_inits_contract():
+    STATE = 'OL { pairs: pairs0, end: self.tokenizer.pos(), lbl: self.next_label }'
+    OL0 = 'OL { pairs: Seq::empty(), end: old(self).tokenizer.pos(), lbl: old(self).next_label }'
+    REL = '(forall|i: int| 0 <= i < pairs0.len() ==> (#[trigger] inits@[2 * i]).1 == pairs0[i].1.ast && inits@[2 * i].0.details@ == pairs0[i].1.details && node_view(inits@[2 * i].0.inner) == pairs0[i].1.node && inits@[2 * i + 1].1 == pairs0[i].0.ast && inits@[2 * i + 1].0.details@ == pairs0[i].0.details && node_view(inits@[2 * i + 1].0.inner) == pairs0[i].0.node)'
+    return A(
+        ret='r', attrs=['#[verifier::exec_allows_no_decreases_clause]'], requires=[CURSOR],
+        ensures=[UNTOUCHED, ('entries_value_then_key', """r is Ok ==> ({
+                let l = sp_obj_inits(old(self).tokenizer.toks(), old(self).tokenizer.pos(), old(self).next_label);
+                &&& l is Some && final(self).tokenizer.pos() == l->Some_0.end && final(self).next_label == l->Some_0.lbl && final(self).tokenizer.pos() >= old(self).tokenizer.pos()
+                &&& r->Ok_0@.len() == 2 * l->Some_0.pairs.len()
+                &&& forall|i: int| 0 <= i < r->Ok_0@.len() ==> (#[trigger] r->Ok_0@[i]).1 == flat_items(l->Some_0.pairs)[i].ast && r->Ok_0@[i].0.details@ == flat_items(l->Some_0.pairs)[i].details && node_view(r->Ok_0@[i].0.inner) == flat_items(l->Some_0.pairs)[i].node
+            })""", ('C02', 'C06', 'C17'))],
+        body_begin='let ghost mut pairs0: Seq<(P<Expr>, P<Expr>)> = Seq::empty();',
+        loops={0: dict(
+            invariant=[('token_stream_untouched', 'self.tokenizer.toks() == old(self).tokenizer.toks() && self.tokenizer.pos() <= self.tokenizer.toks().len() && self.bindings == old(self).bindings && self.tokenizer.pos() >= old(self).tokenizer.pos()'),
+                       ('entries_so_far', f'inits@.len() == 2 * pairs0.len() && {REL}', ('C02', 'C17'))],
+            invariant_except_break=[('prefix_parsed', f'sp_oi_loop(self.tokenizer.toks(), {OL0}) == sp_oi_loop(self.tokenizer.toks(), {STATE})', ('C02',))],
+            ensures=[('map_complete', f'sp_oi_loop(self.tokenizer.toks(), {OL0}) == Some({STATE})', ('C02',))],
+            pre=f'let ghost acc0 = {STATE};')},
+        after={('stmt', 'let compiled_key =', 0): 'let ghost k1 = P { ast: compiled_key.1, end: self.tokenizer.pos(), lbl: self.next_label, details: compiled_key.0.details@, node: node_view(compiled_key.0.inner) };',
+               ('stmt', 'let compiled_value =', 0): 'let ghost v1 = P { ast: compiled_value.1, end: self.tokenizer.pos(), lbl: self.next_label, details: compiled_value.0.details@, node: node_view(compiled_value.0.inner) };',
+               ('stmt', 'inits.push(compiled_key)', 0): 'proof { pairs0 = pairs0.push((k1, v1)); assert(sp_expr(self.tokenizer.toks(), acc0.end, acc0.lbl) == Some(k1)); assert(sp_expr(self.tokenizer.toks(), k1.end + 1, k1.lbl) == Some(v1)); }'},
+        before={'Ok(inits)': '''proof {
+    let fl = flat_items(pairs0);
+    assert forall|i: int| 0 <= i < inits@.len() implies (#[trigger] inits@[i]).1 == fl[i].ast && inits@[i].0.details@ == fl[i].details && node_view(inits@[i].0.inner) == fl[i].node by {
+        let q = i / 2;
+        assert(0 <= q < pairs0.len());
+        assert(inits@[2 * q].1 == pairs0[q].1.ast);
+        if i % 2 == 0 { assert(i == 2 * q); assert(fl[i] == pairs0[q].1); } else { assert(i == 2 * q + 1); assert(fl[i] == pairs0[q].0); }
+    }
+}'''},
+        rewrites=[('let mut inits = Vec::new();', 'let mut inits: Vec<(CompiledProg, AstNode<Expr>)> = Vec::new();', 'R9: inferred type of a local made explicit'),
+                  ('self.tokenizer.peek()?.as_token() == Some(&Token::RBrace)', 'opt_ref_tok_is_rbrace(self.tokenizer.peek()?.as_token())', 'R2: derived PartialEq on Option<&Token> -> variant test'),
+                  ('next_token != Some(Token::Colon)', '!opt_tok_is_colon(&next_token)', 'R2: derived PartialEq on Option<Token> -> variant test')],
+        props=('C02', 'C06', 'C17', 'C18', 'C01'))
+
+
 def build():
     U = Unit('parser_unary')
     U.global_rewrites.append(C.DYN_REWRITE)
@@ -272,10 +407,13 @@ def build():
     U.raw(C.TRAIT_FULL, 'CelValueDyn restated')
     U.raw('impl View for CelByteCode { type V = Seq<ByteCode>; closed spec fn view(&self) -> Seq<ByteCode> { self.inner@ } }\n' + S.core_with_full_tokenizer() + S.ITER + S.FCWB_SPEC + SPEC.replace('// ---- list literals', S.EXPR_LIST_SPEC + '// ---- list literals') + S.BINDCTX_AMBIENT, 'grammar specs')
     U.raw(C.STD_SPECS, 'assumed std specs')
-    U.raw(S.axioms().replace('ax::axiom_vec_bytecode_len, ', 'ax::axiom_vec_bytecode_len, axl::axiom_vec_of_exprs, axl::axiom_list_from_values, '), 'axioms')
+    U.raw(S.axioms().replace('ax::axiom_vec_bytecode_len, ', 'ax::axiom_vec_bytecode_len, axl::axiom_vec_of_exprs, axl::axiom_list_from_values, axo::axiom_vec_of_inits, '), 'axioms')
     U.extract(C.CE, 'impl From<SyntaxError> for CelError', fns={'from': A(ret='r', ensures=[('def', 'r == CelError::Syntax(value)')], props=('C01',))})
     U.extract('rscel/src/compiler/tokenizer.rs', 'impl AsToken for Option<&TokenWithLoc>', fns={
         'as_token': A(ret='r', ensures=[('def', '(match *self { Some(s) => r == Some(&s.token), None => r is None })')], props=('C02', 'C01'))})
+    U.extract('rscel/src/compiler/tokens.rs', 'trait IntoToken')
+    U.extract('rscel/src/compiler/tokenizer.rs', 'impl TokenWithLoc', fns={'into_token': A(ret='r', ensures=[('def', 'r == self.token')], props=('C01',))}, others='stub')
+    U.extract('rscel/src/compiler/tokenizer.rs', 'impl IntoToken for Option<TokenWithLoc>', fns={'into_token': A(ret='r', ensures=[('def', '(match self { Some(t) => r == Some(t.token), None => r is None })')], props=('C02', 'C01'))})
     U.extract('rscel/src/compiler/tokenizer.rs', 'impl AsToken for &TokenWithLoc', fns={'as_token': A(ret='r', ensures=[('def', 'r == Some(&self.token)')], props=('C01',))})
     U.extract('rscel/src/compiler/tokenizer.rs', 'impl AsToken for TokenWithLoc', fns={'as_token': A(ret='r', ensures=[('def', 'r == Some(&self.token)')], props=('C01',))})
     U.extract('rscel/src/compiler/source_range.rs', 'impl SourceRange', fns={
@@ -323,6 +461,7 @@ def build():
         'parse_unary': unary_contract(),
         'parse_primary': primary_contract(),
         'parse_expression_list': expr_list_contract(),
+        'parse_obj_inits': obj_inits_contract(),
     })
     U.raw(C.FOOTER, 'footer')
     return U
